@@ -192,6 +192,11 @@ class C01(InputProp):
         db = self.db("en")
         times = {}
         for n in (32, 128, 512):
+            if n == 512 and times.get(128, 0) > 1.0:
+                # a lexeme that is expensive by itself (a tag that transcludes pages, a big image map): the growth exponent is
+                # measured between 32 and 128 repetitions, where it is as visible and four times cheaper
+                times[512], times[128] = times[128], times[32]
+                break
             text = self.frames[frame] % (p * n)
             best = None
             for rep in range(2 if n == 512 else 1):
